@@ -222,7 +222,8 @@ def _process_and_check_data(data):
     elif isinstance(data, dict) and all(
         isinstance(i, pd.Series) for i in data.values()
     ):
-        pass
+        # Do not modify the dictionary of the caller.
+        data = dict(data)
     else:
         raise NotImplementedError(
             "'data' is not a pd.DataFrame or a pd.Series or a dictionary of pd.Series."
